@@ -680,7 +680,7 @@ def _mismatch(rng, cs, fresh):
 
 
 def _gen_partner(rng, fresh, dom=None, rngcs=None, nin=None, nout=None, dt="f8", base="float",
-                 invertible=False):
+                 invertible=False, general=False):
     kind = _kind_for(dt, rng, base)
     if dom is None:
         nin = nin or rng.choice([1, 2, 2, 3, 3, 4, 5])
@@ -696,6 +696,21 @@ def _gen_partner(rng, fresh, dom=None, rngcs=None, nin=None, nout=None, dt="f8",
         low = "i8" if "i8" in (dom["dt"], rngcs["dt"]) else "f8"
         kind_eff = _kind_for(low if (dom["dt"] == rngcs["dt"]) else dt, rng, base)
     mat = _rand_mat(rng, kind_eff, len(rngcs["names"]), len(dom["names"]), invertible)
+    if general and len(rngcs["names"]) == len(dom["names"]) and kind_eff in ("float", "int"):
+        # _as_coordinate_map inverts every affine piece with LAPACK: keep away from exactly singular
+        # matrices whose singularity rounding hides (LAPACK then returns a meaningless "inverse")
+        for _ in range(20):
+            m = _mat_np(mat, kind_eff)
+            _, sing = _exact_rank_info(m)
+            if not sing:
+                if np.linalg.cond(np.asarray(m, dtype=float)) < 1e6:
+                    break
+            else:
+                try:
+                    np.linalg.inv(np.asarray(m, dtype=float))
+                except np.linalg.LinAlgError:
+                    break
+            mat = _rand_mat(rng, kind_eff, len(rngcs["names"]), len(dom["names"]), True)
     return {"dom": dom, "rng": rngcs, "kind": kind_eff, "mat": mat}
 
 
@@ -775,7 +790,7 @@ def _build(case):
     dt0 = MDT[base]
     nin = rng.choice([1, 2, 2, 3, 3, 3, 4, 5])
     nout = nin if rng.random() < 0.6 else rng.choice([1, 2, 3, 4, 5])
-    init = _gen_partner(rng, fresh, nin=nin, nout=nout, dt=dt0, base=base,
+    init = _gen_partner(rng, fresh, general=bool(general), nin=nin, nout=nout, dt=dt0, base=base,
                         invertible=rng.random() < 0.7)
     prog = {"init": init, "ops": [], "expect_init": "ok"}
     if general:
@@ -839,7 +854,7 @@ def _build(case):
                 target = dict(dcs)
                 if bad:
                     target, why = _mismatch(rng, dcs, fresh)
-                R = _gen_partner(rng, fresh, rngcs=target, nin=len(target["names"]) if inv_ok else None,
+                R = _gen_partner(rng, fresh, general=bool(general), rngcs=target, nin=len(target["names"]) if inv_ok else None,
                                  dt=dt if why != "dtype" else target["dt"], base=base, invertible=inv_ok)
                 if why == "dtype":
                     R["dom"]["dt"] = target["dt"]
@@ -849,7 +864,7 @@ def _build(case):
                 wl = None
                 if bad_l:
                     target, wl = _mismatch(rng, rcs, fresh)
-                L = _gen_partner(rng, fresh, dom=target, nout=len(target["names"]) if inv_ok else None,
+                L = _gen_partner(rng, fresh, general=bool(general), dom=target, nout=len(target["names"]) if inv_ok else None,
                                  dt=rcs["dt"] if wl != "dtype" else target["dt"], base=base, invertible=inv_ok)
                 if wl == "dtype":
                     L["rng"]["dt"] = target["dt"]
@@ -870,7 +885,7 @@ def _build(case):
             pdt = dt if (general or rng.random() < 0.8) else rng.choice(["i8", "f8"])
             if dt == "O":
                 pdt = "O"
-            B = _gen_partner(rng, fresh, nin=k_i, nout=k_o, dt=pdt, base=base)
+            B = _gen_partner(rng, fresh, general=bool(general), nin=k_i, nout=k_o, dt=pdt, base=base)
             used_i, used_o = set(dcs["names"]), set(rcs["names"])
             B["dom"]["names"] = fresh.names(k_i, used_i)
             B["rng"]["names"] = fresh.names(k_o, used_o)
